@@ -1407,8 +1407,10 @@ class BaseImage(metaclass=ImageMeta):
             else:  # middle
                 top = (height - lines) // 2
                 bottom = height - lines - top
-            top = f"{' ' * width}\n" * top
-            bottom = f"\n{' ' * width}" * bottom
+            # The padded width is never less than the render width
+            padded_width = max(width, cols)
+            top = f"{' ' * padded_width}\n" * top
+            bottom = f"\n{' ' * padded_width}" * bottom
         else:
             top = bottom = ""
 
